@@ -329,6 +329,69 @@ pub fn run(tier: Tier) -> i32 {
         extra: vec![],
     });
 
+    // folding values reached through other library calls: a frequency spectrum (into_normalized), and
+    // a spectrum filled by clone_from into a value that had another shape
+    {
+        let fshapes: Vec<Vec<usize>> = shapes(3, 1, 5, 30);
+        let fills: [(&str, f64); 4] = [("nan", f64::NAN), ("zero", 0.0), ("minus-one", -1.0), ("inf", f64::INFINITY)];
+        let fres = par_map(fshapes.len(), |si| {
+            let sh = &fshapes[si];
+            let x = labeled(sh, "lin");
+            let total = x.sum();
+            let normalized = RefArray { shape: x.shape.clone(), data: x.data.iter().map(|v| v / total).collect() };
+            let mut viols: Vec<Viol> = Vec::new();
+            let mut n = 0u64;
+            for (fi, (fname, fill)) in fills.iter().enumerate() {
+                n += 2;
+                let expect = normalized.fold(*fill);
+                let got = catch(|| {
+                    let sfs = scs_from_ref(&x).into_normalized();
+                    let f = sfs.fold().into_spectrum(*fill);
+                    RefArray { shape: f.shape().to_vec(), data: f.inner().as_slice().to_vec() }
+                });
+                let close = |g: &RefArray| g.shape == expect.shape && g.data.iter().zip(&expect.data).all(|(a, b)| (a.is_nan() && b.is_nan()) || a == b || (a - b).abs() <= 1e-12 * b.abs());
+                if !matches!(&got, Ok(g) if close(g)) && viols.len() < 3 {
+                    viols.push((
+                        format!("C05|lib|fold-of-frequency-spectrum|{}", shape_class(sh)),
+                        format!("into_normalized().fold().into_spectrum({fname}) on shape {sh:?} gives {:?}, expected {:?}", got.map(|g| g.data), expect.data),
+                        J::obj([("kind", J::s("c05-sfs")), ("shape", J::usizes(sh)), ("fill", J::u(fi))]),
+                    ));
+                }
+                // clone_from into a value of the reversed shape, then fold
+                let mut rev = sh.clone();
+                rev.reverse();
+                let expect2 = x.fold(*fill);
+                let got2 = catch(|| {
+                    let mut work = scs_from_ref(&RefArray::from_fn(&rev, |f, _| 500.0 + f as f64));
+                    work.clone_from(&scs_from_ref(&x));
+                    ref_from_spectrum(&work.fold().into_spectrum(*fill))
+                });
+                if !matches!(&got2, Ok(g) if same_arr(g, &expect2)) && viols.len() < 3 {
+                    viols.push((
+                        format!("C05|lib|fold-after-clone_from|{}", shape_class(sh)),
+                        format!("a spectrum of shape {rev:?} overwritten by clone_from with one of shape {sh:?} and folded (fill {fname}) gives {:?}, expected {:?}", got2.map(|g| (g.shape, g.data)), expect2.data),
+                        J::obj([("kind", J::s("c05-clonefrom")), ("shape", J::usizes(sh)), ("fill", J::u(fi))]),
+                    ));
+                }
+            }
+            (n, viols)
+        });
+        let mut ev = 0;
+        for (n, v) in fres {
+            ev += n;
+            for (k, w, j) in v {
+                rep.violation(k, w, j);
+            }
+        }
+        rep.part(Part {
+            name: "lib: fold of frequency spectra and of clone_from targets".into(),
+            evaluations: ev,
+            nontrivial: ev,
+            note: format!("{} shapes x 4 fills: into_normalized().fold().into_spectrum(fill) is the fold of the normalized values (the fill is not normalized away); a value of the reversed shape overwritten by clone_from folds like its source", fshapes.len()),
+            exhaustive: true,
+            extra: vec![],
+        });
+    }
     // unfold histories: one folded value (and a clone of it) turned into a spectrum twice, for every
     // ordered pair of fill values - the second result must not remember the first fill
     {
@@ -542,6 +605,34 @@ pub fn run(tier: Tier) -> i32 {
             evaluations: rj.len() as u64,
             nontrivial: rj.len() as u64,
             note: "3 shapes x 4 fills x precision {0,6,12} x input text / npy x {stdin file, stdin pipe, path, FIFO, /dev/stdin} x {stdout, --output file}: every printed value against the reference fold".into(),
+            exhaustive: true,
+            extra: vec![],
+        });
+    }
+    // the library's writers and readers on plain streams (writers that take a few bytes per call and
+    // implement only write / flush, a writer that is full, buffered readers of small capacities)
+    {
+        let spectra: Vec<RefArray> = vec![labeled(&[5], "lin").fold(0.0), labeled(&[3, 4], "lin").fold(-1.0), labeled(&[2, 3, 2], "lin").fold(f64::NAN)];
+        let mut n = 0u64;
+        for x in &spectra {
+            for precision in [0usize, 6] {
+                n += 1;
+                let scs = crate::subject::scs_from_ref(x);
+                let r = crate::verdict::catch(|| crate::subject::io_through_plain_streams(&scs, precision));
+                let problem = match r {
+                    Ok(p) => p,
+                    Err(p) => Some(format!("panic: {p}")),
+                };
+                if let Some(why) = problem {
+                    rep.violation("C05|lib|plain-streams".to_string(), format!("spectrum of shape {:?} at precision {precision}: {why}", x.shape), J::obj([("kind", J::s("plain-streams")), ("shape", J::usizes(&x.shape))]));
+                }
+            }
+        }
+        rep.part(Part {
+            name: "lib: folded spectra written through plain writers".into(),
+            evaluations: n,
+            nontrivial: n,
+            note: "each spectrum in text and npy through writers accepting 1 / 7 / 64 bytes per call (only write and flush implemented): the bytes a Vec receives; into a writer that is full (Ok(0)) after 0, 1, half, all but one byte: not a success; the npy bytes read back through buffered readers of capacity 1, 3, 7, 8, 12, 20, 100, 127, 129".into(),
             exhaustive: true,
             extra: vec![],
         });
